@@ -257,12 +257,29 @@ def run_option_family(seed):
     selfjoin = {'k': 'join', 'left': jl, 'right': jr, 'on': ['kk'], 'how': 'inner'}
     variants['selfjoin>>groupby(x)'] = [selfjoin, {'k': 'groupby', 'by': 'x'}]
     variants['selfjoin>>groupby(y)'] = [selfjoin, {'k': 'groupby', 'by': 'y'}]
-    recs, problems = [], []
+    # the same function bound to the key in one pipeline and to a constructor argument whose VALUE is the name of the key ('id') in
+    # the other: under a dataset-wide layer these are different functions of the entry
+    xt = [[[i, 'id'], 'gh'[j % 2]] for j, i in enumerate(sorted(ids))] + [[['id', i], 'g'] for i in sorted(ids)] + \
+        [[['zz', 'id'], 'g'], [['id', 'zz'], 'g']]
+    variants["groupby(x(id, _d)), d='id'"] = [base, {'k': 'transform', 'cls': 'OK1', 'fields': {'x': {'args': ['u', 'v'], 'posbind': ['id', '_d'], 'f': 'OK.x', 'table': xt}},
+                                                     'params': {}, 'cargs': {'d': 'id'}, 'defaults': {}}, {'k': 'groupby', 'by': 'x'}]
+    variants["groupby(x(_c, id)), c='id'"] = [base, {'k': 'transform', 'cls': 'OK2', 'fields': {'x': {'args': ['u', 'v'], 'posbind': ['_c', 'id'], 'f': 'OK.x', 'table': xt}},
+                                                     'params': {}, 'cargs': {'c': 'id'}, 'defaults': {}}, {'k': 'groupby', 'by': 'x'}]
+    recs, problems, mem = [], [], []
     for what, layers in variants.items():
         try:
             p = b.layer({'k': 'chain', 'flavour': 'chain', 'layers': layers})
             fn = p._compile('ids')
             recs.append((what, 'ids', digest_of(fn, []), canon(val_to_json(fn(), world))))
+            mem.append((what + ' / ids', fn.get_hash()[0], recs[-1][3]))
+            if layers[-1]['k'] == 'groupby':
+                # a grouped field for one group key: its node hash contains no per-connection lambda
+                fx = p._compile('x')
+                for gk in ('g', 'p', 'q'):
+                    try:
+                        mem.append((what + f' / x({gk!r})', fx.get_hash(gk)[0], canon(val_to_json(fx(gk), world))))
+                    except Exception:
+                        pass
         except Exception as e:
             recs.append((what, 'ids', 'ERR:' + what, 'ERR ' + exc_name(e)))
     groups = {}
@@ -275,4 +292,11 @@ def run_option_family(seed):
                                  'msg': f'equal persistent digests of `ids` for {rs[0][0]} and {what} over one dataset, but different values: '
                                         f'{rs[0][1][:100]} vs {val[:100]}'})
                 break
+    # in memory (the key of RAM caches and of every cache object shared by two pipelines) node hashes are compared with `==`
+    for i in range(len(mem)):
+        for j in range(i + 1, len(mem)):
+            if mem[i][2] != mem[j][2] and mem[i][1] == mem[j][1] and not problems:
+                problems.append({'a': mem[i][0], 'b': mem[j][0], 'base': base,
+                                 'msg': f'equal node hashes (NodeHash ==) for {mem[i][0]} and {mem[j][0]} over one dataset, but different values: '
+                                        f'{mem[i][2][:100]} vs {mem[j][2][:100]}'})
     return {'variants': len(recs), 'pairs': sum(len(r) - 1 for r in groups.values())}, problems
